@@ -1,0 +1,37 @@
+//go:build verif
+
+package memdb
+
+// This file only exists under the build tag "verif" (external verification harness, check C11).
+
+// verifObservedStore is a metric store whose IsActive (only called by the metadata gc) first
+// calls a function of the harness, everything else is the wrapped production store.
+type verifObservedStore struct {
+	mStoreINTF
+	onIsActive func()
+}
+
+func (s *verifObservedStore) IsActive(timestamp int64) bool {
+	s.onIsActive()
+	return s.mStoreINTF.IsActive(timestamp)
+}
+
+// VerifObserveMetadataGC wraps every metric store the metadata database holds right now so that
+// fn is called whenever the background gc (started after each metadata flush) inspects one of
+// them, i.e. while that gc is in the middle of its scan. Returns the number of wrapped stores
+// (0 = db is not the production implementation). No behaviour change besides the call.
+func VerifObserveMetadataGC(db MetadataDatabase, fn func()) int {
+	mdb, ok := db.(*metadataDatabase)
+	if !ok {
+		return 0
+	}
+	n := 0
+	mdb.metricMetadatas.Range(func(key, value any) bool {
+		if _, wrapped := value.(*verifObservedStore); !wrapped {
+			mdb.metricMetadatas.Store(key, &verifObservedStore{mStoreINTF: value.(mStoreINTF), onIsActive: fn})
+			n++
+		}
+		return true
+	})
+	return n
+}
